@@ -35,12 +35,18 @@ class Construction:
 
   def _initialize_tags(self, strings):
     first_tag = len(strings)
+    tagnames = []
     for i in range(len(strings)-1, 0, -1):
       try:
-        self._initialize_tag(*(gfapy.Field._parse_gfa_tag(strings[i])))
+        tag = gfapy.Field._parse_gfa_tag(strings[i])
+        self._initialize_tag(*tag)
       except:
         break
+      tagnames.append(tag[0])
       first_tag = i
+    # the tags were found from the last to the first: restore the input order
+    for tagname in reversed(tagnames):
+      self._data[tagname] = self._data.pop(tagname)
     self._delayed_initialize_positional_fields(strings, first_tag)
 
   def _delayed_initialize_positional_fields(self, strings, n_positional_fields):
